@@ -213,7 +213,7 @@ Section Guarded.
         else if String.eqb id "" then (s, Resp 401 BText)
         else if negb (String.eqb (c_topic c) id) then (s, Resp 401 BText)
         else if (c_booking c =? 0)%N && negb (cfg_allow_empty cfg) then (s, Resp 400 BError)
-        else if denied s (c_booking c) then (s, Resp 400 BError)
+        else if denied s (c_booking c) then (s, Resp 400 BError)   (* AllowIfNotDenied = false *)
         else
           match c_exp c with
           | None => (s, Panic)                     (* unreachable: has_required_claims = Ok true *)
@@ -397,16 +397,17 @@ Definition ws_accept (cfg : config) (s : st) (path : string) (code : option N) (
         | Some e =>
             let s1 := set_codes s (crm k (codes s)) in             (* the code is spent whatever follows *)
             let now := clock s in
-            if negb (entry_complete e) then (s1, WRefused)
+            if (e_store_exp e <? now)%Z then (s1, WRefused)        (* ExchangeCode: expired code (fix F01) *)
+            else if negb (entry_complete e) then (s1, WRefused)
             else if (now <? e_nbf e)%Z then (s1, WRefused)         (* NotBefore.After(now) *)
             else if negb (String.eqb (e_aud e) (cfg_audience cfg)) then (s1, WRefused)
             else if negb (String.eqb topic (e_topic e)) then (s1, WRefused)
             else if (e_exp e - now <? 0)%Z then (s1, WRefused)
-            else if denied s (e_booking e) then (s1, WRefused)
             else
               let r := str_mem "read" (e_scopes e) in
               let w := str_mem "write" (e_scopes e) in
               if negb (r || w) then (s1, WRefused)
+              else if denied s (e_booking e) then (s1, WRefused)   (* re-check, after the cancel channel is recorded (fix F04) *)
               else
                 let m := mkmember (next_conn s) topic (e_scopes e) (e_booking e) (e_exp e) r w ua in
                 (mkstate (codes s1) (reg s) (m :: hub s) (next_code s) (N.succ (next_conn s)), WJoined m)
